@@ -248,6 +248,44 @@ package vm
 //@   ensures [err] result1 != nil ==> u256(callCost) >= 18446744073709551616
 //@   modifies nothing
 
+// Call-family dynamic gas (C11: gas is never created). The interpreter deducts result0 from the frame
+// before the opcode runs; the opcode then hands evm.callGasTemp, plus CallStipend (2300) when a value
+// is transferred, to the callee. So what is charged must cover the forwarded gas without wrapping,
+// and a value transfer must be charged at least CallValueTransferGas (9000), which pays for the stipend.
+//@ func gasCallCode
+//@   property C11
+//@   requires evm != nil && contract != nil && mem != nil && stack != nil && len(stack.data) >= 3
+//@   requires memInv(uint64(len(mem.store)), mem.lastGasCost)
+//@   ensures [covers]  result1 == nil ==> wide(result0) >= wide(evm.callGasTemp)
+//@   ensures [stipend] result1 == nil && u256(stack.data[len(stack.data)-3]) != 0 ==> wide(result0) >= wide(evm.callGasTemp) + 9000
+//@   ensures [within]  result1 == nil && result0 <= contract.Gas ==> evm.callGasTemp <= contract.Gas - (result0 - evm.callGasTemp)
+//@   modifies mem.lastGasCost, evm.callGasTemp
+
+//@ func gasCall
+//@   property C11
+//@   requires evm != nil && contract != nil && mem != nil && stack != nil && len(stack.data) >= 3
+//@   requires memInv(uint64(len(mem.store)), mem.lastGasCost)
+//@   ensures [covers]  result1 == nil ==> wide(result0) >= wide(evm.callGasTemp)
+//@   ensures [stipend] result1 == nil && u256(stack.data[len(stack.data)-3]) != 0 ==> wide(result0) >= wide(evm.callGasTemp) + 9000
+//@   ensures [within]  result1 == nil && result0 <= contract.Gas ==> evm.callGasTemp <= contract.Gas - (result0 - evm.callGasTemp)
+//@   modifies mem.lastGasCost, evm.callGasTemp
+
+//@ func gasDelegateCall
+//@   property C11
+//@   requires evm != nil && contract != nil && mem != nil && stack != nil && len(stack.data) >= 1
+//@   requires memInv(uint64(len(mem.store)), mem.lastGasCost)
+//@   ensures [covers]  result1 == nil ==> wide(result0) >= wide(evm.callGasTemp)
+//@   ensures [within]  result1 == nil && result0 <= contract.Gas ==> evm.callGasTemp <= contract.Gas - (result0 - evm.callGasTemp)
+//@   modifies mem.lastGasCost, evm.callGasTemp
+
+//@ func gasStaticCall
+//@   property C11
+//@   requires evm != nil && contract != nil && mem != nil && stack != nil && len(stack.data) >= 1
+//@   requires memInv(uint64(len(mem.store)), mem.lastGasCost)
+//@   ensures [covers]  result1 == nil ==> wide(result0) >= wide(evm.callGasTemp)
+//@   ensures [within]  result1 == nil && result0 <= contract.Gas ==> evm.callGasTemp <= contract.Gas - (result0 - evm.callGasTemp)
+//@   modifies mem.lastGasCost, evm.callGasTemp
+
 //@ func gasExpFrontier
 //@   property C11
 //@   requires stack != nil && len(stack.data) >= 2
